@@ -27,6 +27,9 @@ type vfBackoffCase struct {
 	NoJitter bool   `json:"nojitter"`
 	Attempts []int  `json:"attempts"`
 	Mode     string `json:"mode"` // "query" (durationForAttempt) or "sequence" (duration() after reset)
+	// Alt (mixed mode): settings the application switches to in the middle (-3 in Attempts): the fields are exported
+	// knobs of a live value, and every delay follows the settings in force when it is computed
+	Alt [][3]int `json:"alt,omitempty"`
 }
 
 // vfRefBackoff returns min(cap, base*factor^n) in milliseconds; zero settings take the documented defaults.
@@ -71,8 +74,13 @@ func vfBackoffRun(run *vfkit.Run, cs vfBackoffCase) {
 	if capMs == 0 {
 		capMs = int64(defaultCap)
 	}
+	cur := cs // the settings in force (mixed mode may change them)
 	check := func(n int, d time.Duration, mode string) bool {
-		ref := vfRefBackoff(cs.Base, cs.Factor, cs.Cap, n)
+		capMs := int64(cur.Cap)
+		if capMs == 0 {
+			capMs = int64(defaultCap)
+		}
+		ref := vfRefBackoff(cur.Base, cur.Factor, cur.Cap, n)
 		ms := int64(d / time.Millisecond)
 		if d < 0 {
 			run.Violation("C19/negative:"+mode, fmt.Sprintf("attempt %d: %v < 0 (%+v)", n, d, cs), cs)
@@ -122,9 +130,16 @@ func vfBackoffRun(run *vfkit.Run, cs vfBackoffCase) {
 		// one value used both ways: -1 = the next duration() of the consecutive sequence, -2 = reset(), n >= 0 = a
 		// durationForAttempt(n) query in between. The query must not disturb the sequence, nor the sequence the query.
 		b := &backoff{NoJitter: cs.NoJitter, Base: cs.Base, Factor: cs.Factor, Cap: cs.Cap}
-		i := 0
+		i, nalt := 0, 0
 		for _, a := range cs.Attempts {
 			switch {
+			case a == -3:
+				if len(cs.Alt) > 0 {
+					alt := cs.Alt[nalt%len(cs.Alt)]
+					nalt++
+					b.Base, b.Factor, b.Cap = alt[0], alt[1], alt[2]
+					cur.Base, cur.Factor, cur.Cap = alt[0], alt[1], alt[2]
+				}
 			case a == -2:
 				b.reset()
 				i = 0
@@ -224,7 +239,12 @@ func TestVf_C19(t *testing.T) {
 		} else if r.Intn(3) == 0 {
 			cs.Mode = "mixed"
 			for i, k := 0, 5+r.Intn(40); i < k; i++ {
-				switch r.Intn(8) {
+				switch r.Intn(9) {
+				case 8:
+					if cs.Base != 0 { // explicit settings are replaced by other explicit settings (zero means "default" only at first use)
+						cs.Attempts = append(cs.Attempts, -3)
+						cs.Alt = append(cs.Alt, [3]int{pickv(100000), 1 + r.Intn(5), pickv(100000000)})
+					}
 				case 0:
 					cs.Attempts = append(cs.Attempts, -2)
 				case 1, 2:
